@@ -385,7 +385,6 @@ def body_arith(case):
     e = JDE2000 if shared else Epoch(case["j"])
     je = e.jde()
     fx = F(x)
-    site = "Epoch.__add__"
 
     def law(diff, what, site):
         if not isinstance(diff, float):
